@@ -238,7 +238,21 @@ def run_case(seed, i, tier):
     rng = core.rng_for(seed, PROP, i)
     K = 2 if tier == "quick" else 6
     bsz, form, srcs, opts, args = gen_case(rng)
-    expected = merge.model_stdout(srcs)
+    if rng.random() < 0.15:
+        # the merge seen through a per-file printer: every line carries its file's name, and some messages are larger than
+        # a printer's staging buffer (a printer that holds part of a message back would let later messages overtake it)
+        import decor
+        for s_ in srcs:
+            if rng.random() < 0.6:
+                merge.inflate_message(rng, s_, rng.choice(("many_lines", "many_lines", "long_line")))
+        mode = rng.choice(("name", "path"))
+        opts = list(opts) + ["-n" if mode == "name" else "-p"]
+        dec = decor.Decoration(mode, False, None, None, ":", "")
+        merged = merge.model_merge(srcs)
+        expected = decor.model_stdout(srcs, merged, dec)
+        form += "+file_prefix"
+    else:
+        expected = merge.model_stdout(srcs)
     nw = mergecheck.n_workers(srcs)
     budget = mergecheck.step_budget(srcs, bsz)
     hashseed = rng.getrandbits(32)
